@@ -143,8 +143,12 @@ func (b *StscBox) Info(w io.Writer, specificBoxLevels, indent, indentStep string
 	level := getInfoLevel(b, specificBoxLevels)
 	if level >= 1 {
 		for i := range b.Entries {
+			sampleDescriptionID := b.singleSampleDescriptionID
+			if sampleDescriptionID == 0 && i < len(b.SampleDescriptionID) {
+				sampleDescriptionID = b.SampleDescriptionID[i]
+			}
 			bd.write(" - entry[%d]: firstChunk=%d samplesPerChunk=%d sampleDescriptionID=%d",
-				i+1, b.Entries[i].FirstChunk, b.Entries[i].SamplesPerChunk, b.GetSampleDescriptionID(int(b.Entries[i].FirstChunk)))
+				i+1, b.Entries[i].FirstChunk, b.Entries[i].SamplesPerChunk, sampleDescriptionID)
 		}
 	}
 	return bd.err
@@ -185,7 +189,11 @@ func (b *StscBox) GetSampleDescriptionID(chunkNr int) uint32 {
 		return b.singleSampleDescriptionID
 	}
 	// There is one value per entry, so the entry of the chunk must be found
-	return b.SampleDescriptionID[b.findEntryNrForChunkNr(uint32(chunkNr))]
+	entryNr := b.findEntryNrForChunkNr(uint32(chunkNr))
+	if int(entryNr) >= len(b.SampleDescriptionID) {
+		return 0 // No entry for this chunk (chunk numbers start at 1 and the entries must be sorted)
+	}
+	return b.SampleDescriptionID[entryNr]
 }
 
 // SetSingleSampleDescriptionID - use this for efficiency if all samples have same sample description
